@@ -13,3 +13,23 @@ def classifier(name):
         CLASSIFIERS[name] = fn
         return fn
     return deco
+
+
+@classifier("duration_observer_operation_value_frozen_at_dispatch")
+def _duration_frozen(kind, w):
+    """DurationObserver only writes an operation's remaining duration when that
+    operation is dispatched (end - max(start, clock right after its own
+    dispatch)) and never refreshes it while the clock advances.  Executable
+    model: the observed value must equal exactly that frozen value, the
+    operation must be scheduled and not yet completed, and the correct value
+    must differ."""
+    if kind != "c11_feature_differs_from_definition":
+        return False
+    x = w.get("witness", {})
+    if x.get("observer") != "DurationObserver" or x.get("feature") != "operations":
+        return False
+    if "frozen_model_value" not in x or x.get("op_end") is None:
+        return False
+    scheduled_not_completed = x["op_end"] > x["now"]
+    return (scheduled_not_completed and x["got"] == x["frozen_model_value"]
+            and x["got"] != x["want"])
